@@ -123,6 +123,22 @@ func c03(r *ev.Run, pairMode bool) {
 		}
 		return hotpValidate(c, key, nil, pairMode)
 	})
+	r.Scenario("hotp-validate-history", func(raw []byte) (string, string) {
+		emptySyncPools()
+		obs := ""
+		for k, c := range unjson[[]c03Case](raw) {
+			v, key := ref.B32Classify(c.Secret)
+			if v != ref.MustAccept {
+				return "", ""
+			}
+			o, bad := hotpValidate(c, key, nil, pairMode)
+			obs += o + ";"
+			if bad != "" {
+				return obs, fmt.Sprintf("step %d: %s", k, bad)
+			}
+		}
+		return obs, ""
+	})
 	r.Scenario("hotp-validate-work", func(raw []byte) (string, string) {
 		c := unjson[c03Case](raw)
 		n := countDerivations(func() { callValidateHOTP(c) })
@@ -258,6 +274,58 @@ func c03(r *ev.Run, pairMode bool) {
 	})
 	r.Set("complete_code_space_configs", len(sps))
 	r.Set("complete_code_space_max_digits", maxd)
+	// neighbouring-call histories on one goroutine: calls that differ in exactly one argument, all ordered
+	// pairs A, B, A — a verdict must never be answered from what an earlier call left behind
+	{
+		k0, k1 := keys[1], keys[0]
+		s0, s1 := spellings(k0)[0], spellings(k1)[0]
+		base := c03Case{s0, ref.HOTP(k0, 7, 6, 0), 7, 1, 6, 0, false}
+		fam := []struct {
+			c   c03Case
+			key []byte
+		}{{base, k0}}
+		add := func(f func(c *c03Case) []byte) {
+			c := base
+			key := f(&c)
+			if key == nil {
+				key = k0
+			}
+			fam = append(fam, struct {
+				c   c03Case
+				key []byte
+			}{c, key})
+		}
+		add(func(c *c03Case) []byte { c.Counter = 9; return nil })                                // same code, counter moved out of reach
+		add(func(c *c03Case) []byte { c.Counter = 8; return nil })                                // still in the window
+		add(func(c *c03Case) []byte { c.Skew = 0; c.Counter = 8; return nil })                    // window shrunk
+		add(func(c *c03Case) []byte { c.Algo = 1; return nil })                                   // other hash, same code
+		add(func(c *c03Case) []byte { c.Digits = 8; c.Code = ref.HOTP(k0, 7, 8, 0); return nil }) // other length
+		add(func(c *c03Case) []byte { c.Secret = s1; return k1 })                                 // other secret, same code
+		add(func(c *c03Case) []byte { c.Code = ref.HOTP(k0, 8, 6, 0); return nil })               // neighbour's code
+		add(func(c *c03Case) []byte { c.Code = "000000"; return nil })
+		add(func(c *c03Case) []byte { c.Nil = true; c.Counter = 5; return nil }) // defaults: window 2
+		var hn int64
+		for i := range fam {
+			for j := range fam {
+				emptySyncPools()
+				steps := []int{i, j, i}
+				var cs []c03Case
+				obs := ""
+				for k, ix := range steps {
+					cs = append(cs, fam[ix].c)
+					o, bad := hotpValidate(fam[ix].c, fam[ix].key, nil, pairMode)
+					obs += o + ";"
+					hn++
+					if bad != "" {
+						r.Fail("hotp-validate-history", fmt.Sprintf("step %d of the history (calls %d, %d, %d of the family): %s", k, i, j, i, bad), cs, "each call judged on its own arguments", obs)
+						break
+					}
+				}
+			}
+		}
+		r.Eval(hn)
+		r.Set("neighbouring_call_history_steps", hn)
+	}
 	// refused windows and nil parameters; work bound via the HMAC-constructor seam (sequential)
 	var wn int64
 	for _, s := range []uint64{11, 12, 255, 1 << 32, 1 << 63, ^uint64(0)} {
